@@ -12,7 +12,7 @@ import ast
 import z3
 from pyvc import xreal as xr
 from pyvc.xreal import X
-from pyvc.numexec import Unsupported
+from pyvc.numexec import Unsupported, ANALYSIS
 from pyvc.arrays import ArrExec, Arr, Sc, IntS, Rec, Induction, rint, INT, REAL, BOOL
 from pyvc.solve import Obl, static, undecided
 from pyvc.runner import main
@@ -353,7 +353,7 @@ def build(run):
     for fq, f in plan:
         try:
             f(run)
-        except Unsupported as ex_:
+        except ANALYSIS as ex_:
             run.add(undecided(f"{fq}/subset", f"outside the verified subset: {ex_}", fn=fq, meta=RP()))
         except NotFound as ex_:
             run.add(static(f"{fq}/exists", False, f"function under contract not found: {ex_}", fn=fq))
